@@ -148,6 +148,9 @@ type Disk struct {
 	FencedOps int64
 	keepData  bool
 	observers []func(e *Entry)
+	// opMu makes "effect on the real file system + journal entry" one atomic step, so
+	// that the journal order is a legal order of the effects (begin/gates run before it)
+	opMu sync.Mutex
 }
 
 // FS implements fileops.VFS.
@@ -567,6 +570,8 @@ func (f *file) Write(b []byte) (int, error) {
 	}
 	e := &Entry{Kind: KWrite, Path: f.rel, Off: off, Data: append([]byte(nil), b...)}
 	short, ferr := f.d.begin(e)
+	f.d.opMu.Lock()
+	defer f.d.opMu.Unlock()
 	if ferr != nil {
 		if short > 0 {
 			e.Data = e.Data[:short]
@@ -592,6 +597,8 @@ func (f *file) Truncate(size int64) error {
 	if _, err := f.d.begin(e); err != nil {
 		return err
 	}
+	f.d.opMu.Lock()
+	defer f.d.opMu.Unlock()
 	if err := f.File.Truncate(size); err != nil {
 		return err
 	}
@@ -604,6 +611,8 @@ func (f *file) Sync() error {
 	if _, err := f.d.begin(e); err != nil {
 		return err
 	}
+	f.d.opMu.Lock()
+	defer f.d.opMu.Unlock()
 	if err := f.File.Sync(); err != nil {
 		return err
 	}
@@ -616,6 +625,8 @@ func (f *file) SyncUpdateLength() error {
 	if _, err := f.d.begin(e); err != nil {
 		return err
 	}
+	f.d.opMu.Lock()
+	defer f.d.opMu.Unlock()
 	if err := f.File.SyncUpdateLength(); err != nil {
 		return err
 	}
@@ -649,6 +660,8 @@ func (s *FS) OpenFile(name string, flag int, perm os.FileMode, opt ...fileops.FS
 		if _, err := d.begin(e); err != nil {
 			return nil, err
 		}
+		d.opMu.Lock()
+		defer d.opMu.Unlock()
 	} else if flag&(os.O_WRONLY|os.O_RDWR) != 0 {
 		if d.Dead() {
 			return nil, &os.PathError{Op: "open", Path: name, Err: syscall.EIO}
@@ -688,6 +701,8 @@ func (s *FS) simple(kind Kind, name string, do func() error) error {
 	if _, err := d.begin(e); err != nil {
 		return err
 	}
+	d.opMu.Lock()
+	defer d.opMu.Unlock()
 	if err := do(); err != nil {
 		return err
 	}
@@ -734,6 +749,8 @@ func (s *FS) Mkdir(path string, perm os.FileMode, opt ...fileops.FSOption) error
 	if _, err := d.begin(e); err != nil {
 		return err
 	}
+	d.opMu.Lock()
+	defer d.opMu.Unlock()
 	if err := s.inner.Mkdir(path, perm, opt...); err != nil {
 		return err
 	}
@@ -746,7 +763,12 @@ func (s *FS) MkdirAll(path string, perm os.FileMode, opt ...fileops.FSOption) er
 	if d == nil {
 		return s.inner.MkdirAll(path, perm, opt...)
 	}
-	if st, err := os.Stat(path); err == nil && st.IsDir() {
+	exists := func() bool { st, err := os.Stat(path); return err == nil && st.IsDir() }
+	if exists() {
+		// the directory may have been created by an operation whose journal entry is
+		// not committed yet: wait for it (opMu) before reporting success
+		d.opMu.Lock()
+		d.opMu.Unlock()
 		if d.Dead() {
 			return &os.PathError{Op: "mkdir", Path: path, Err: syscall.EIO}
 		}
@@ -756,6 +778,8 @@ func (s *FS) MkdirAll(path string, perm os.FileMode, opt ...fileops.FSOption) er
 	if _, err := d.begin(e); err != nil {
 		return err
 	}
+	d.opMu.Lock()
+	defer d.opMu.Unlock()
 	if err := s.inner.MkdirAll(path, perm, opt...); err != nil {
 		return err
 	}
@@ -782,6 +806,8 @@ func (s *FS) RenameFile(oldPath, newPath string, opt ...fileops.FSOption) error 
 	if _, err := d.begin(e); err != nil {
 		return err
 	}
+	d.opMu.Lock()
+	defer d.opMu.Unlock()
 	if err := s.inner.RenameFile(oldPath, newPath, opt...); err != nil {
 		return err
 	}
@@ -800,6 +826,8 @@ func (s *FS) WriteFile(filename string, data []byte, perm os.FileMode, opt ...fi
 	if _, err := d.begin(e); err != nil {
 		return err
 	}
+	d.opMu.Lock()
+	defer d.opMu.Unlock()
 	if err := s.inner.WriteFile(filename, data, perm, opt...); err != nil {
 		return err
 	}
@@ -836,6 +864,8 @@ func (s *FS) Truncate(name string, size int64, opt ...fileops.FSOption) error {
 	if _, err := d.begin(e); err != nil {
 		return err
 	}
+	d.opMu.Lock()
+	defer d.opMu.Unlock()
 	if err := s.inner.Truncate(name, size, opt...); err != nil {
 		return err
 	}
